@@ -211,6 +211,15 @@ def factories(rng):
     add(Lt.IrregularLattice(reg, remove=[[0, 0, 0]]), 'remove only')
     add(Lt.IrregularLattice(reg, remove=[[0, 0, 0]], add=([[0, 0, 2]], [0]), add_unit_cell=[s], add_positions=[[0.5, 0.5]]), 'remove and add')
     add(Lt.HelicalLattice(Lt.Square(2, 3, s, bc=['periodic', -1], bc_MPS='infinite'), 2))
+    # segments of lattices and models (bc_MPS 'segment' with the window remembered in segment_first_last), starting at 0 and later
+    chain_inf = Lt.Chain(4, s, bc='periodic', bc_MPS='infinite')
+    add(chain_inf.extract_segment(enlarge=2), 'segment, enlarge=2 (first == 0)')
+    add(chain_inf.extract_segment(0, 5), 'segment first=0 last=5')
+    add(chain_inf.extract_segment(2, 9), 'segment first=2 last=9')
+    add(Lt.Ladder(3, s, bc='periodic', bc_MPS='infinite').extract_segment(enlarge=2), 'ladder segment')
+    M_inf_seg = XXZChain({'L': 2, 'Jxx': 1., 'Jz': 0.5, 'hz': 0.1, 'bc_MPS': 'infinite'})
+    add(M_inf_seg.extract_segment(enlarge=3), 'model segment (first == 0)')
+    add(M_inf_seg.extract_segment(1, 4), 'model segment first=1')
     add(Lt.MultiSpeciesLattice(Lt.Chain(3, None), [S.FermionSite('N'), S.FermionSite('N')], ['A', 'B']))
     return out
 
